@@ -446,6 +446,13 @@ theorem deliveries_only_on_removal (ops : List Op) (op : Op) (caller : Nat) (o :
     simp [step, hf, terminate] at hx
     exact (mem_removeQ.1 hx).2
 
+/-- **A value or a specific error.** A caller observes a dropped channel (`closed`) only when some caller of
+the same query dropped its receiver; with all receivers alive every outcome is a value or a specific error. -/
+theorem closed_only_after_hangup (ops : List Op) (op : Op) (caller : Nat)
+    (h : (caller, Outcome.closed) ∈ (step (run ops) op).2.deliveries) :
+    ∃ q ∈ (run ops).pending, caller ∈ q.senders ∧ ∃ c' ∈ q.senders, c' ∈ (run ops).hung :=
+  step_closed h
+
 /-! ## `handle_split_record_error`: the merge of a split
 
 `order` is the iteration order of the result map (any duplicate-free order is a legal choice of the
@@ -685,6 +692,7 @@ end SafeNet.Props.C05
 #print axioms SafeNet.Props.C05.one_outcome_each
 #print axioms SafeNet.Props.C05.terminating_event_answers_all
 #print axioms SafeNet.Props.C05.deliveries_only_on_removal
+#print axioms SafeNet.Props.C05.closed_only_after_hangup
 #print axioms SafeNet.Props.C05.merge_tx_is_union
 #print axioms SafeNet.Props.C05.merge_reg_is_union
 #print axioms SafeNet.Props.C05.merge_pad_is_highest_valid
